@@ -1,15 +1,543 @@
-(* Proofs about Model/Frag.v (part 1: concrete witnesses). *)
-From Coq Require Import ZArith Bool List Lia.
-From NP Require Import Model.Frag.
+(* Proofs about Fragmentation.Process (Model/Frag.v) for ALL inputs: no panic, size accounting,
+   eviction post-condition; plus the witness that the reassemble error branch is reachable. *)
+From Coq Require Import ZArith Bool List Lia Permutation ZifyBool.
+From NP Require Import Model.Frag Proofs.FragListP Proofs.FragHeapP Proofs.FragHolesP.
 Import ListNotations.
 Open Scope Z_scope.
 
-(* The inconsistent input that made the unrepaired reassembler.process panic: it drives
-   fragHeap.reassemble into its error branch ("packet has a hole"), which the old code turned
-   into panic(...). *)
-Definition bad_r1 := fst (rprocess (newReassembler 0 0) 8 7 true []).
+(* ------------------------------------------------------------------ the old panic *)
+(* The inconsistent input that made the unrepaired reassembler.process panic: (first=8, last=7,
+   more) then (first=0, last=65535, more), both with empty payload.  After the second call every
+   hole is deleted, reassemble pops offset 0 (size 0) and then offset 8 > 0: its error branch
+   ("packet has a hole"), which the old code turned into panic(...).  The repaired code returns
+   err, and Fragmentation.Process drops the reassembler and returns not-done. *)
+Definition bad_r1 : reasm := fst (rprocess (newReassembler 0 0) 8 7 true []).
+Definition bad_r2 : reasm := fst (updateHoles bad_r1 0 65535 true).
 Lemma process_error_reachable :
+  r_deleted bad_r2 = Z.of_nat (length (r_holes bad_r2)) /\
+  fst (reassemble (heap_push (r_heap bad_r2) (mkFrag 0 []))) = RErr /\
   p_err (snd (rprocess bad_r1 0 65535 true [])) = true /\
-  fst (reassemble (r_heap (fst (updateHoles bad_r1 0 65535 true)))) = RPanic \/
-  p_err (snd (rprocess bad_r1 0 65535 true [])) = true.
-Proof. right. vm_compute. reflexivity. Qed.
+  snd (fprocess (fst (fprocess (newFragmentation 100 50 10) 0 8 7 true [] 0)) 0 0 65535 true [] 0) = ([], false, false).
+Proof. vm_compute. repeat split; reflexivity. Qed.
+
+(* ------------------------------------------------------------------ reassemble never pops an empty heap *)
+Lemma reasm_loop_no_panic : forall fuel h size acc,
+  (length h <= fuel)%nat -> fst (reasm_loop fuel h size acc) <> RPanic.
+Proof.
+  induction fuel as [|f IH]; intros h size acc Hl.
+  - destruct h; [cbn; discriminate|simpl in Hl; lia].
+  - destruct h as [|a t] eqn:Eh; [cbn; discriminate|].
+    rewrite <- Eh in *. assert (Hne : h <> []) by (rewrite Eh; discriminate).
+    destruct (heap_pop_length h Hne) as (x & h' & Ep & Hlen).
+    rewrite Eh. cbn [reasm_loop]. rewrite <- Eh. rewrite Ep.
+    destruct (fr_off x <? size); [apply IH; lia|].
+    destruct (size <? fr_off x); [cbn; discriminate|apply IH; lia].
+Qed.
+
+Lemma reassemble_no_panic : forall h, h <> [] -> fst (reassemble h) <> RPanic.
+Proof.
+  intros h Hne. unfold reassemble.
+  destruct (heap_pop_length h Hne) as (x & h' & Ep & Hlen). rewrite Ep.
+  destruct (negb (fr_off x =? 0)); [cbn; discriminate|].
+  apply reasm_loop_no_panic. lia.
+Qed.
+
+(* ------------------------------------------------------------------ one reassembler, any input *)
+Fixpoint heap_bytes (h : fheap) : Z :=
+  match h with [] => 0 | it :: t => zlen (fr_pl it) + heap_bytes t end.
+
+Lemma heap_bytes_nonneg : forall h, 0 <= heap_bytes h.
+Proof. induction h as [|it t IH]; cbn [heap_bytes]; [lia|]. pose proof (zlen_nonneg (fr_pl it)). lia. Qed.
+
+Lemma heap_bytes_perm : forall h h', Permutation h h' -> heap_bytes h = heap_bytes h'.
+Proof. induction 1; cbn [heap_bytes]; lia. Qed.
+
+(* what holds of every reassembler that sits in the map between two calls *)
+Record RWf (r : reasm) : Prop := {
+  w_done : r_done r = false;
+  w_holes : Forall hole_wf (r_holes r);
+  w_nonempty : (1 <= length (r_holes r))%nat;
+  w_del : r_deleted r = ndel (r_holes r);
+  w_heap : 1 <= r_deleted r -> r_heap r <> [];
+  (* r.size = number of payload bytes held in the heap *)
+  w_size : r_size r = heap_bytes (r_heap r)
+}.
+
+Lemma RWf_new : forall id now, RWf (newReassembler id now).
+Proof.
+  intros. constructor; cbn; auto; try lia.
+  constructor; [|constructor]. unfold hole_wf; cbn. lia.
+Qed.
+
+Definition u16_range (x : Z) : Prop := 0 <= x <= 65535.
+
+Lemma rprocess_wf : forall r first last more pl r' o,
+  RWf r -> u16_range first -> u16_range last ->
+  rprocess r first last more pl = (r', o) ->
+  p_panic o = false /\
+  (p_consumed o = 0 \/ p_consumed o = zlen pl) /\
+  r_id r' = r_id r /\ r_ctime r' = r_ctime r /\ r_done r' = false /\
+  r_size r' = r_size r + p_consumed o /\
+  (p_done o = false -> p_res o = []) /\
+  (p_done o = true -> p_err o = false) /\
+  (p_done o = false -> p_err o = false ->
+     RWf r' /\ forall it, In it (r_heap r') -> it = mkFrag first pl \/ In it (r_heap r)) /\
+  (* a delivered datagram is the reassembly of the fragments stored so far plus this one *)
+  (p_done o = true ->
+     exists H, fst (reassemble H) = ROk (p_res o) /\
+               forall it, In it H -> it = mkFrag first pl \/ In it (r_heap r)).
+Proof.
+  intros r first last more pl r' o W Hf Hl E.
+  destruct W as [Wd Wh Wn Wdel Whp Wsz].
+  unfold rprocess in E. rewrite Wd in E.
+  destruct (updateHoles r first last more) as [r1 used] eqn:Eu.
+  destruct (updateHoles_spec r first last more r1 used Hf Hl Wh Wdel Eu)
+    as (W1 & D1 & Eid & Esz & Ehp & Edn & Ect & Llen & U1 & U2 & L1).
+  destruct (updateHoles_deleted r first last more r1 used Hf Hl Wh Eu) as [Dun Dle].
+  set (r2 := if used then
+              mkReasm (r_id r1) (r_size r1 + zlen pl) (r_holes r1) (r_deleted r1)
+                      (heap_push (r_heap r1) (mkFrag first pl)) (r_done r1) (r_ctime r1)
+            else r1) in *.
+  set (consumed := if used then zlen pl else 0).
+  assert (E2 : (if used then
+             (mkReasm (r_id r1) (r_size r1 + zlen pl) (r_holes r1) (r_deleted r1)
+                      (heap_push (r_heap r1) (mkFrag first pl)) (r_done r1) (r_ctime r1), zlen pl)
+           else (r1, 0)) = (r2, consumed)) by (unfold r2, consumed; destruct used; reflexivity).
+  rewrite E2 in E. clear E2.
+  assert (Hc : consumed = 0 \/ consumed = zlen pl) by (unfold consumed; destruct used; auto).
+  assert (W2 : RWf r2 /\ r_id r2 = r_id r /\ r_ctime r2 = r_ctime r /\ r_size r2 = r_size r + consumed /\
+               (forall it, In it (r_heap r2) -> it = mkFrag first pl \/ In it (r_heap r))).
+  { unfold r2, consumed. destruct used.
+    - split; [|cbn; repeat split; try congruence; try lia].
+      + constructor; cbn; auto; try congruence; try lia.
+        * intros _ Hnil. pose proof (heap_push_length (r_heap r1) (mkFrag first pl)) as L.
+          rewrite Hnil in L. simpl in L. lia.
+        * rewrite <- (heap_bytes_perm _ _ (heap_push_perm (r_heap r1) (mkFrag first pl))).
+          cbn [heap_bytes fr_pl]. rewrite Ehp, Esz, Wsz. lia.
+      + intros it Hin. apply heap_push_in in Hin. rewrite Ehp in Hin. auto.
+    - split; [|repeat split; try congruence; try lia].
+      + constructor; auto; try congruence; try lia.
+        * rewrite Dun by auto. rewrite Ehp. auto.
+      + intros it Hin. rewrite Ehp in Hin. auto. }
+  destruct W2 as (W2 & Eid2 & Ect2 & Esz2 & Hin2).
+  destruct (r_deleted r2 <? Z.of_nat (length (r_holes r2))) eqn:Et.
+  - injection E as <- <-. cbn [p_panic p_consumed p_done p_res p_err].
+    split; [reflexivity|]. split; [exact Hc|]. split; [exact Eid2|]. split; [exact Ect2|].
+    split; [apply (w_done _ W2)|]. split; [exact Esz2|]. split; [reflexivity|]. split; [discriminate|].
+    split; [intros _ _; split; [exact W2|exact Hin2]|]. discriminate.
+  - assert (Hne : r_heap r2 <> []).
+    { apply (w_heap _ W2). pose proof (w_nonempty _ W2). lia. }
+    pose proof (reassemble_no_panic _ Hne) as Hnp.
+    pose proof (w_done _ W2) as Hd2.
+    destruct (reassemble (r_heap r2)) as [[bytes| |] h'] eqn:Er; cbn [fst] in Hnp; [| |congruence];
+      injection E as <- <-; cbn [p_panic p_consumed p_done p_res p_err set_heap r_id r_ctime r_done r_size].
+    + split; [reflexivity|]. split; [exact Hc|]. split; [exact Eid2|]. split; [exact Ect2|].
+      split; [exact Hd2|]. split; [exact Esz2|]. split; [discriminate|]. split; [reflexivity|].
+      split; [discriminate|]. intros _. exists (r_heap r2). rewrite Er. split; [reflexivity|exact Hin2].
+    + split; [reflexivity|]. split; [exact Hc|]. split; [exact Eid2|]. split; [exact Ect2|].
+      split; [exact Hd2|]. split; [exact Esz2|]. split; [reflexivity|]. split; [discriminate|].
+      split; [intros _ Hx; discriminate|]. discriminate.
+Qed.
+
+(* ------------------------------------------------------------------ the map / list of reassemblers *)
+Definition sum_sizes (rs : list reasm) : Z := fold_right (fun r acc => r_size r + acc) 0 rs.
+Definition ids (rs : list reasm) : list Z := map r_id rs.
+
+Lemma sum_sizes_cons : forall y t, sum_sizes (y :: t) = r_size y + sum_sizes t.
+Proof. reflexivity. Qed.
+
+Lemma lookup_some : forall id rs r, lookup id rs = Some r -> In r rs /\ r_id r = id.
+Proof.
+  induction rs as [|x t IH]; intros r E; cbn [lookup] in E; [discriminate|].
+  destruct (Z.eqb_spec (r_id x) id).
+  - injection E as <-. split; [now left|auto].
+  - destruct (IH _ E). split; [now right|auto].
+Qed.
+
+Lemma lookup_none : forall id rs, lookup id rs = None <-> ~ In id (ids rs).
+Proof.
+  induction rs as [|x t IH]; cbn [lookup ids map In]; [tauto|].
+  destruct (Z.eqb_spec (r_id x) id).
+  - split; [discriminate|]. intros H. exfalso. apply H. now left.
+  - rewrite IH. unfold ids. tauto.
+Qed.
+
+Lemma lookup_in_nodup : forall rs r, NoDup (ids rs) -> In r rs -> lookup (r_id r) rs = Some r.
+Proof.
+  induction rs as [|x t IH]; intros r Hnd Hin; [destruct Hin|].
+  cbn [ids map] in Hnd. inversion Hnd as [|? ? Hx Ht]; subst.
+  cbn [lookup]. destruct Hin as [->|Hin].
+  - now rewrite Z.eqb_refl.
+  - destruct (Z.eqb_spec (r_id x) (r_id r)) as [e|]; [|auto].
+    exfalso. apply Hx. rewrite e. apply in_map. auto.
+Qed.
+
+Lemma remove_id_in : forall id rs x, In x (remove_id id rs) -> In x rs.
+Proof.
+  induction rs as [|y t IH]; intros x Hin; cbn [remove_id] in Hin; [destruct Hin|].
+  destruct (r_id y =? id); [now right|]. destruct Hin as [->|Hin]; [now left|right; auto].
+Qed.
+
+Lemma remove_id_ids_in : forall id rs j, In j (ids (remove_id id rs)) -> In j (ids rs).
+Proof.
+  intros id rs j Hin. unfold ids in *. apply in_map_iff in Hin. destruct Hin as [x [<- Hx]].
+  apply in_map. eapply remove_id_in; eauto.
+Qed.
+
+Lemma remove_id_nodup : forall id rs, NoDup (ids rs) -> NoDup (ids (remove_id id rs)).
+Proof.
+  induction rs as [|y t IH]; intros Hnd; cbn [remove_id]; auto.
+  cbn [ids map] in Hnd. inversion Hnd as [|? ? Hy Ht]; subst.
+  destruct (r_id y =? id); auto.
+  cbn [ids map]. constructor; [|apply IH; auto].
+  intros Hin. apply Hy. eapply remove_id_ids_in; eauto.
+Qed.
+
+Lemma remove_id_lookup_other : forall id rs j, j <> id -> lookup j (remove_id id rs) = lookup j rs.
+Proof.
+  induction rs as [|y t IH]; intros j Hj; cbn [remove_id lookup]; auto.
+  destruct (Z.eqb_spec (r_id y) id) as [e|ne].
+  - destruct (Z.eqb_spec (r_id y) j); [lia|auto].
+  - cbn [lookup]. destruct (r_id y =? j); auto.
+Qed.
+
+Lemma remove_id_lookup_same : forall id rs, NoDup (ids rs) -> lookup id (remove_id id rs) = None.
+Proof.
+  induction rs as [|y t IH]; intros Hnd; cbn [remove_id]; auto.
+  cbn [ids map] in Hnd. inversion Hnd as [|? ? Hy Ht]; subst.
+  destruct (Z.eqb_spec (r_id y) id) as [e|ne].
+  - apply lookup_none. now rewrite <- e.
+  - cbn [lookup]. destruct (Z.eqb_spec (r_id y) id); [lia|auto].
+Qed.
+
+Lemma remove_id_sum : forall id rs r, lookup id rs = Some r ->
+  sum_sizes (remove_id id rs) = sum_sizes rs - r_size r.
+Proof.
+  induction rs as [|y t IH]; intros r E; cbn [lookup] in E; [discriminate|].
+  cbn [remove_id]. destruct (r_id y =? id).
+  - injection E as <-. rewrite sum_sizes_cons. lia.
+  - rewrite !sum_sizes_cons. rewrite (IH _ E). lia.
+Qed.
+
+Lemma remove_id_length : forall id rs r, lookup id rs = Some r -> S (length (remove_id id rs)) = length rs.
+Proof.
+  induction rs as [|y t IH]; intros r E; cbn [lookup] in E; [discriminate|].
+  cbn [remove_id]. destruct (r_id y =? id); [reflexivity|]. cbn [length]. now rewrite (IH _ E).
+Qed.
+
+Lemma store_ids : forall r rs, ids (store r rs) = ids rs.
+Proof.
+  induction rs as [|y t IH]; cbn [store]; auto.
+  destruct (Z.eqb_spec (r_id y) (r_id r)) as [e|]; cbn [ids map]; [now rewrite e|].
+  f_equal. apply IH.
+Qed.
+
+Lemma store_in : forall r rs x, In x (store r rs) -> x = r \/ In x rs.
+Proof.
+  induction rs as [|y t IH]; intros x Hin; cbn [store] in Hin; [destruct Hin|].
+  destruct (r_id y =? r_id r).
+  - destruct Hin as [<-|Hin]; [now left|right; now right].
+  - destruct Hin as [<-|Hin]; [right; now left|]. destruct (IH _ Hin); [now left|right; now right].
+Qed.
+
+Lemma store_lookup_same : forall r rs old, lookup (r_id r) rs = Some old -> lookup (r_id r) (store r rs) = Some r.
+Proof.
+  induction rs as [|y t IH]; intros old E; cbn [lookup] in E; [discriminate|].
+  cbn [store]. destruct (Z.eqb_spec (r_id y) (r_id r)) as [e|ne]; cbn [lookup].
+  - now rewrite Z.eqb_refl.
+  - destruct (Z.eqb_spec (r_id y) (r_id r)); [lia|]. eapply IH; eauto.
+Qed.
+
+Lemma store_lookup_other : forall r rs j, j <> r_id r -> lookup j (store r rs) = lookup j rs.
+Proof.
+  induction rs as [|y t IH]; intros j Hj; cbn [store lookup]; auto.
+  destruct (Z.eqb_spec (r_id y) (r_id r)) as [e|ne]; cbn [lookup].
+  - destruct (Z.eqb_spec (r_id r) j); [lia|]. destruct (Z.eqb_spec (r_id y) j); [lia|auto].
+  - destruct (r_id y =? j); auto.
+Qed.
+
+Lemma store_sum : forall r rs old, lookup (r_id r) rs = Some old ->
+  sum_sizes (store r rs) = sum_sizes rs - r_size old + r_size r.
+Proof.
+  induction rs as [|y t IH]; intros old E; cbn [lookup] in E; [discriminate|].
+  cbn [store]. destruct (r_id y =? r_id r).
+  - injection E as <-. rewrite !sum_sizes_cons. lia.
+  - rewrite !sum_sizes_cons. rewrite (IH _ E). lia.
+Qed.
+
+Lemma store_length : forall r rs, length (store r rs) = length rs.
+Proof. intros. rewrite <- (map_length r_id), <- (map_length r_id rs). apply (f_equal (@length Z) (store_ids r rs)). Qed.
+
+Lemma sum_sizes_nonneg : forall rs, Forall RWf rs -> 0 <= sum_sizes rs.
+Proof.
+  induction rs as [|y t IH]; intros Hall; [cbn; lia|]. rewrite sum_sizes_cons.
+  inversion Hall as [|? ? Hy Ht]; subst. pose proof (IH Ht).
+  rewrite (w_size _ Hy). pose proof (heap_bytes_nonneg (r_heap y)). lia.
+Qed.
+
+Lemma sum_sizes_member : forall rs r, Forall RWf rs -> In r rs -> 0 <= r_size r <= sum_sizes rs.
+Proof.
+  induction rs as [|y t IH]; intros r Hall Hin; [destruct Hin|].
+  inversion Hall as [|? ? Hy Ht]; subst. rewrite sum_sizes_cons.
+  pose proof (sum_sizes_nonneg _ Ht) as H0.
+  assert (0 <= r_size y) by (rewrite (w_size _ Hy); apply heap_bytes_nonneg).
+  destruct Hin as [->|Hin]; [lia|]. pose proof (IH _ Ht Hin). lia.
+Qed.
+
+(* ------------------------------------------------------------------ the invariant of Fragmentation *)
+Record FInv (f : fstate) : Prop := {
+  fi_nodup : NoDup (ids (f_rs f));
+  fi_wf : Forall RWf (f_rs f);
+  (* f.size is the sum of the reassemblers' sizes, i.e. the number of payload bytes stored *)
+  fi_size : f_size f = sum_sizes (f_rs f);
+  fi_low : 0 <= f_low f
+}.
+
+Lemma FInv_new : forall high low timeout, FInv (newFragmentation high low timeout).
+Proof.
+  intros. unfold newFragmentation. constructor; cbn; auto; try constructor.
+  destruct (high <=? low); destruct (_ <? 0) eqn:E; lia.
+Qed.
+
+Lemma release_spec : forall f r, FInv f -> lookup (r_id r) (f_rs f) = Some r ->
+  FInv (release f r) /\
+  f_rs (release f r) = remove_id (r_id r) (f_rs f) /\
+  f_size (release f r) = f_size f - r_size r /\
+  f_high (release f r) = f_high f /\ f_low (release f r) = f_low f /\ f_timeout (release f r) = f_timeout f.
+Proof.
+  intros f r [Hnd Hwf Hsz Hlow] E.
+  destruct (lookup_some _ _ _ E) as [Hin _].
+  assert (Wr : RWf r) by (rewrite Forall_forall in Hwf; auto).
+  pose proof (sum_sizes_member _ _ Hwf Hin) as Hb.
+  unfold release. rewrite (w_done _ Wr).
+  assert (Hs : (if f_size f - r_size r <? 0 then 0 else f_size f - r_size r) = f_size f - r_size r).
+  { destruct (Z.ltb_spec (f_size f - r_size r) 0); lia. }
+  rewrite Hs. cbn. repeat split; auto.
+  - apply remove_id_nodup; auto.
+  - rewrite Forall_forall in *. intros x Hx. apply Hwf. eapply remove_id_in; eauto.
+  - cbn [f_size f_rs]. rewrite (remove_id_sum _ _ _ E). lia.
+Qed.
+
+(* eviction walk *)
+Lemma evict_loop_spec : forall back f,
+  FInv f -> NoDup (ids back) -> (forall r, In r back -> lookup (r_id r) (f_rs f) = Some r) ->
+  let f' := evict_loop f back in
+  FInv f' /\
+  f_high f' = f_high f /\ f_low f' = f_low f /\ f_timeout f' = f_timeout f /\
+  (forall x, In x (f_rs f') -> In x (f_rs f)) /\
+  (forall j, ~ In j (ids back) -> lookup j (f_rs f') = lookup j (f_rs f)) /\
+  f_size f' <= f_size f /\
+  (f_size f' <= f_low f' \/ forall r, In r back -> lookup (r_id r) (f_rs f') = None).
+Proof.
+  induction back as [|tail prev IH]; intros f I Hnd Hall; cbn [evict_loop].
+  - split; [exact I|]. repeat split; auto; try lia. right. intros r [].
+  - destruct (Z.ltb_spec (f_low f) (f_size f)) as [Hgt|Hle].
+    + destruct (release_spec f tail I (Hall tail (or_introl eq_refl))) as (I1 & Ers & Esz & Eh & El & Et).
+      cbn [ids map] in Hnd. inversion Hnd as [|? ? Htl Hpv]; subst.
+      assert (Hall1 : forall r, In r prev -> lookup (r_id r) (f_rs (release f tail)) = Some r).
+      { intros r Hr. rewrite Ers. rewrite remove_id_lookup_other; [apply Hall; now right|].
+        intros e. apply Htl. rewrite <- e. apply in_map. auto. }
+      destruct (IH (release f tail) I1 Hpv Hall1) as (I' & Eh' & El' & Et' & Hsub & Hfr & Hsz' & Hpost).
+      split; [auto|]. split; [congruence|]. split; [congruence|]. split; [congruence|].
+      assert (Wt : RWf tail).
+      { destruct (lookup_some _ _ _ (Hall tail (or_introl eq_refl))) as [Hin _].
+        pose proof (fi_wf _ I) as Hwf. rewrite Forall_forall in Hwf. auto. }
+      split; [|split; [|split]].
+      * intros x Hx. apply Hsub in Hx. rewrite Ers in Hx. eapply remove_id_in; eauto.
+      * intros j Hj. cbn [ids map In] in Hj. rewrite Hfr by tauto. rewrite Ers.
+        apply remove_id_lookup_other. intros e. apply Hj. now left.
+      * pose proof (w_size _ Wt). pose proof (heap_bytes_nonneg (r_heap tail)). lia.
+      * destruct Hpost as [Hp|Hp]; [now left|right].
+        intros r [<-|Hr]; [|auto].
+        (* the tail stays removed *)
+        destruct (lookup (r_id tail) (f_rs (evict_loop (release f tail) prev))) as [x|] eqn:Ex; auto.
+        exfalso. destruct (lookup_some _ _ _ Ex) as [Hin Hid].
+        apply Hsub in Hin.
+        assert (Hnone : lookup (r_id tail) (f_rs (release f tail)) = None).
+        { rewrite Ers. apply remove_id_lookup_same. apply (fi_nodup _ I). }
+        apply lookup_none in Hnone. apply Hnone. rewrite <- Hid. apply in_map. auto.
+    + split; [exact I|]. repeat split; auto; try lia.
+Qed.
+
+(* ------------------------------------------------------------------ Process in three phases *)
+Definition acquire (f : fstate) (id now : Z) : fstate * reasm :=
+  match lookup id (f_rs f) with
+  | Some r0 =>
+      if tooOld r0 now (f_timeout f) then
+        let f0 := release f r0 in
+        let rn := newReassembler id now in (with_rs f0 (rn :: f_rs f0), rn)
+      else (f, r0)
+  | None => let rn := newReassembler id now in (with_rs f (rn :: f_rs f), rn)
+  end.
+
+Definition finish (f1 : fstate) (r' : reasm) (o : pres) : fstate * (list Z * bool * bool) :=
+  let f2 := with_rs f1 (store r' (f_rs f1)) in
+  if p_panic o then (f2, ([], false, true))
+  else
+    let f3 := add_size f2 (p_consumed o) in
+    let f4 := if p_done o || p_err o then release f3 r' else f3 in
+    let f5 := if f_high f4 <? f_size f4 then evict_loop f4 (rev (f_rs f4)) else f4 in
+    (f5, (p_res o, p_done o, false)).
+
+Lemma fprocess_unfold : forall f id first last more pl now,
+  fprocess f id first last more pl now =
+  let '(f1, r) := acquire f id now in
+  let '(r', o) := rprocess r first last more pl in finish f1 r' o.
+Proof. reflexivity. Qed.
+
+Lemma FInv_push_new : forall f id now, FInv f -> lookup id (f_rs f) = None ->
+  FInv (with_rs f (newReassembler id now :: f_rs f)).
+Proof.
+  intros f id now [Hnd Hwf Hsz Hlow] Hn. constructor; cbn [with_rs f_rs f_size f_low]; auto.
+  - cbn [ids map]. constructor; auto. apply lookup_none in Hn. auto.
+  - constructor; auto. apply RWf_new.
+Qed.
+
+Lemma acquire_spec : forall f id now f1 r, FInv f -> acquire f id now = (f1, r) ->
+  FInv f1 /\ lookup id (f_rs f1) = Some r /\ r_id r = id /\
+  f_high f1 = f_high f /\ f_low f1 = f_low f /\ f_timeout f1 = f_timeout f /\
+  f_size f1 <= f_size f /\
+  (forall j, j <> id -> lookup j (f_rs f1) = lookup j (f_rs f)) /\
+  (forall x, In x (f_rs f1) -> x = r \/ In x (f_rs f)) /\
+  ((r = newReassembler id now /\
+    (lookup id (f_rs f) = None \/
+     exists r0, lookup id (f_rs f) = Some r0 /\ tooOld r0 now (f_timeout f) = true)) \/
+   (lookup id (f_rs f) = Some r /\ tooOld r now (f_timeout f) = false /\ f1 = f)).
+Proof.
+  intros f id now f1 r I E. unfold acquire in E.
+  destruct (lookup id (f_rs f)) as [r0|] eqn:El.
+  - destruct (lookup_some _ _ _ El) as [Hin0 Hid0].
+    destruct (tooOld r0 now (f_timeout f)) eqn:Eold.
+    + cbv zeta in E. injection E as <- <-.
+      assert (El0 : lookup (r_id r0) (f_rs f) = Some r0) by (rewrite Hid0; auto).
+      destruct (release_spec f r0 I El0) as (I0 & Ers & Esz & Eh & Elo & Et).
+      assert (Hn : lookup id (f_rs (release f r0)) = None).
+      { rewrite Ers, Hid0. apply remove_id_lookup_same. apply (fi_nodup _ I). }
+      pose proof (FInv_push_new _ id now I0 Hn) as I1.
+      split; [exact I1|]. cbn [with_rs f_rs f_high f_low f_timeout f_size lookup newReassembler r_id].
+      rewrite Z.eqb_refl.
+      assert (W0 : RWf r0) by (pose proof (fi_wf _ I) as Hwf; rewrite Forall_forall in Hwf; auto).
+      pose proof (w_size _ W0). pose proof (heap_bytes_nonneg (r_heap r0)).
+      repeat split; auto; try lia.
+      * intros j Hj. destruct (Z.eqb_spec id j); [lia|]. rewrite Ers, Hid0.
+        apply remove_id_lookup_other. auto.
+      * intros x [<-|Hx]; [now left|right]. rewrite Ers in Hx. eapply remove_id_in; eauto.
+      * left. split; auto. right. exists r0. auto.
+    + injection E as <- <-. split; [exact I|]. repeat split; auto; try lia.
+  - cbv zeta in E. injection E as <- <-.
+    split; [apply FInv_push_new; auto|].
+    cbn [with_rs f_rs f_high f_low f_timeout f_size lookup newReassembler r_id]. rewrite Z.eqb_refl.
+    repeat split; auto; try lia.
+    + intros j Hj. destruct (Z.eqb_spec id j); [lia|auto].
+    + intros x [<-|Hx]; auto.
+Qed.
+
+Lemma NoDup_rev_ids : forall rs, NoDup (ids rs) -> NoDup (ids (rev rs)).
+Proof.
+  intros rs H. unfold ids in *. rewrite map_rev. apply NoDup_rev. auto.
+Qed.
+
+Ltac fsimpl := cbn [add_size with_rs f_rs f_size f_high f_low f_timeout].
+
+Lemma finish_spec : forall f1 r first last more pl r' o f' out,
+  FInv f1 -> lookup (r_id r) (f_rs f1) = Some r ->
+  u16_range first -> u16_range last ->
+  rprocess r first last more pl = (r', o) ->
+  finish f1 r' o = (f', out) ->
+  out = (p_res o, p_done o, false) /\ p_panic o = false /\
+  FInv f' /\
+  f_high f' = f_high f1 /\ f_low f' = f_low f1 /\ f_timeout f' = f_timeout f1 /\
+  f_size f' <= f_size f1 + p_consumed o /\
+  (forall x, In x (f_rs f') -> x = r' \/ In x (f_rs f1)) /\
+  (* after the eviction walk: at most lowLimit bytes are kept, or nothing at all *)
+  (f_size f' <= f_high f' \/ f_size f' <= f_low f' \/ f_rs f' = []) /\
+  (* no eviction when the high limit is not exceeded *)
+  (f_size f1 + p_consumed o <= f_high f1 ->
+     (forall j, j <> r_id r -> lookup j (f_rs f') = lookup j (f_rs f1)) /\
+     lookup (r_id r) (f_rs f') = if p_done o || p_err o then None else Some r').
+Proof.
+  intros f1 r first last more pl r' o f' out I El Hf Hl Ep Efin.
+  destruct (lookup_some _ _ _ El) as [Hin _].
+  assert (Wr : RWf r) by (pose proof (fi_wf _ I) as Hwf; rewrite Forall_forall in Hwf; auto).
+  destruct (rprocess_wf r first last more pl r' o Wr Hf Hl Ep)
+    as (Pp & Pc & Pid & Pct & Pdn & Psz & Pres & Perr & Pwf & _).
+  unfold finish in Efin. rewrite Pp in Efin. cbv zeta in Efin.
+  set (f2 := with_rs f1 (store r' (f_rs f1))) in *.
+  set (f3 := add_size f2 (p_consumed o)) in *.
+  assert (El' : lookup (r_id r') (f_rs f1) = Some r) by (rewrite Pid; auto).
+  (* f3: r replaced by r', size advanced *)
+  assert (Nd3 : NoDup (ids (f_rs f3))) by (unfold f3, f2; fsimpl; rewrite store_ids; apply (fi_nodup _ I)).
+  assert (Sz3 : f_size f3 = sum_sizes (f_rs f3)).
+  { unfold f3, f2; fsimpl. rewrite (store_sum _ _ _ El'). rewrite (fi_size _ I). lia. }
+  assert (Lk3 : lookup (r_id r') (f_rs f3) = Some r') by (unfold f3, f2; fsimpl; eapply store_lookup_same; eauto).
+  assert (Lo3 : forall j, j <> r_id r -> lookup j (f_rs f3) = lookup j (f_rs f1)).
+  { intros j Hj. unfold f3, f2; fsimpl. apply store_lookup_other. congruence. }
+  assert (In3 : forall x, In x (f_rs f3) -> x = r' \/ In x (f_rs f1)) by (intros x Hx; unfold f3, f2 in Hx; apply store_in; auto).
+  assert (F3 : f_high f3 = f_high f1 /\ f_low f3 = f_low f1 /\ f_timeout f3 = f_timeout f1 /\
+               f_size f3 = f_size f1 + p_consumed o) by (unfold f3, f2; fsimpl; auto).
+  destruct F3 as (Eh3 & Elo3 & Et3 & Es3).
+  pose proof (zlen_nonneg pl) as Hpl.
+  (* f4 *)
+  set (f4 := if p_done o || p_err o then release f3 r' else f3) in *.
+  assert (I4 : FInv f4 /\ f_high f4 = f_high f1 /\ f_low f4 = f_low f1 /\ f_timeout f4 = f_timeout f1 /\
+               f_size f4 <= f_size f1 + p_consumed o /\
+               (forall x, In x (f_rs f4) -> x = r' \/ In x (f_rs f1)) /\
+               (forall j, j <> r_id r -> lookup j (f_rs f4) = lookup j (f_rs f1)) /\
+               lookup (r_id r) (f_rs f4) = if p_done o || p_err o then None else Some r').
+  { unfold f4. destruct (p_done o || p_err o) eqn:Ede.
+    - (* released: the invariant does not need RWf r' *)
+      unfold release. rewrite Pdn.
+      assert (Hb : 0 <= r_size r' <= f_size f3).
+      { rewrite Sz3. rewrite Psz.
+        assert (0 <= r_size r) by (rewrite (w_size _ Wr); apply heap_bytes_nonneg).
+        split; [lia|].
+        unfold f3, f2; fsimpl. rewrite (store_sum _ _ _ El').
+        pose proof (sum_sizes_member _ _ (fi_wf _ I) Hin). lia. }
+      assert (Hs : (if f_size f3 - r_size r' <? 0 then 0 else f_size f3 - r_size r') = f_size f3 - r_size r').
+      { destruct (Z.ltb_spec (f_size f3 - r_size r') 0); lia. }
+      rewrite Hs. fsimpl.
+      split; [constructor; fsimpl|].
+      + apply remove_id_nodup; auto.
+      + rewrite Forall_forall. intros x Hx.
+        assert (Hx3 : In x (f_rs f3)) by (eapply remove_id_in; eauto).
+        destruct (In3 x Hx3) as [->|Hx1].
+        * exfalso. assert (Hn : lookup (r_id r') (remove_id (r_id r') (f_rs f3)) = None)
+            by (apply remove_id_lookup_same; auto).
+          apply lookup_none in Hn. apply Hn. apply in_map. auto.
+        * pose proof (fi_wf _ I) as Hwf. rewrite Forall_forall in Hwf. auto.
+      + rewrite (remove_id_sum _ _ _ Lk3). lia.
+      + rewrite Elo3. apply (fi_low _ I).
+      + repeat split; auto; try lia.
+        * intros x Hx. apply In3. eapply remove_id_in; eauto.
+        * intros j Hj. rewrite remove_id_lookup_other by congruence. auto.
+        * rewrite <- Pid. apply remove_id_lookup_same. auto.
+    - apply orb_false_iff in Ede. destruct Ede as [Ed Ee].
+      destruct (Pwf Ed Ee) as [Wr' _].
+      split; [constructor; auto|].
+      + rewrite Forall_forall. intros x Hx. destruct (In3 x Hx) as [->|Hx1]; auto.
+        pose proof (fi_wf _ I) as Hwf. rewrite Forall_forall in Hwf. auto.
+      + rewrite Elo3. apply (fi_low _ I).
+      + repeat split; auto; try lia. rewrite <- Pid. auto. }
+  destruct I4 as (I4 & Eh4 & El4 & Et4 & Sz4 & In4 & Lo4 & Lk4).
+  destruct (Z.ltb_spec (f_high f4) (f_size f4)) as [Hev|Hnev].
+  - (* eviction *)
+    destruct (evict_loop_spec (rev (f_rs f4)) f4 I4) as (I5 & Eh5 & El5 & Et5 & Hsub & Hfr & Hsz5 & Hpost).
+    + apply NoDup_rev_ids. apply (fi_nodup _ I4).
+    + intros x Hx. apply in_rev in Hx. apply lookup_in_nodup; auto. apply (fi_nodup _ I4).
+    + injection Efin as <- <-.
+      split; [reflexivity|]. split; [exact Pp|]. split; [exact I5|].
+      split; [congruence|]. split; [congruence|]. split; [congruence|]. split; [lia|].
+      split; [intros x Hx; apply In4; auto|]. split.
+      * right. destruct Hpost as [Hp|Hp]; [now left|right].
+        destruct (f_rs (evict_loop f4 (rev (f_rs f4)))) as [|x t] eqn:Ers; auto. exfalso.
+        assert (Hx : In x (x :: t)) by now left.
+        pose proof (Hsub x Hx) as Hx4.
+        assert (Hn : lookup (r_id x) (x :: t) = None).
+        { apply Hp. apply -> in_rev. auto. }
+        apply lookup_none in Hn. apply Hn. apply in_map. auto.
+      * intros Hbud. lia.
+  - injection Efin as <- <-.
+    split; [reflexivity|]. split; [exact Pp|]. split; [exact I4|].
+    split; [auto|]. split; [auto|]. split; [auto|]. split; [lia|].
+    split; [exact In4|]. split; [left; lia|]. intros _. split; auto.
+Qed.
